@@ -27,7 +27,9 @@ def escapeQuotes (q : Char) (s : Str) : Str :=
 def inBrackets (s : Str) : Bool := let s := strip s; startsWith ['['] s && endsWith [']'] s
 def inParenthesis (s : Str) : Bool := let s := strip s; startsWith ['('] s && endsWith [')'] s
 def inBraces (s : Str) : Bool := let s := strip s; startsWith ['{'] s && endsWith ['}'] s
-def inSlashes (s : Str) : Bool := inQuotesC '/' (strip s)
+def inSlashes (s : Str) : Bool :=
+  let s := strip s
+  (decide (s.length > 2) && startsWith ['/'] s && endsWith ['/', 'i'] s) || inQuotesC '/' s
 
 def standardiseQuotes (q : Char) (s : Str) : Str :=
   let s := if inQuotesC (altquote q) s then addQuotes q (removeQuotes q s) else s
